@@ -12,6 +12,7 @@ import (
 	"crypto/x509"
 	"encoding/hex"
 	"fmt"
+	"strings"
 	"sync"
 	"time"
 
@@ -138,6 +139,7 @@ func (e *env) attempt(client *fdo.TO0Client, mut func(body []byte) []byte) outco
 		if x.MsgType == 20 && x.RespType == 21 {
 			if it, _, err := rc.Parse(x.RespBody); err == nil && it.Kind == rc.Array && len(it.Items) == 1 {
 				o.nonce = it.Items[0].B
+				noteNonce("TO0.HelloAck", o.nonce)
 			}
 		}
 		if x.MsgType == 22 {
@@ -163,6 +165,21 @@ func (e *env) honestClient() *fdo.TO0Client {
 	return &fdo.TO0Client{Vouchers: e.world.Owner.State, OwnerKeys: e.world.Owner.State}
 }
 
+// issued: every nonce the rendezvous server issued during this check. A repeat or the all-zero value defeats the
+// replay defence whatever the rest of the verification does.
+var issued sync.Map
+
+func noteNonce(where string, n []byte) {
+	h := hex.EncodeToString(n)
+	if strings.Trim(h, "0") == "" {
+		r.Violation("nonce-not-fresh:zero", where+": the server issued the all-zero nonce", nil)
+		return
+	}
+	if _, dup := issued.LoadOrStore(h, where); dup {
+		r.Violation("nonce-not-fresh:repeated", where+": nonce "+h+" was issued before", nil)
+	}
+}
+
 // judge applies the one-sided oracle.
 func (e *env) judge(class, what string, o outcome, expectAccept *bool) {
 	r.Evaluations.Add(1)
@@ -181,6 +198,9 @@ func (e *env) judge(class, what string, o outcome, expectAccept *bool) {
 	}
 	accepted := o.respType == 23 || len(o.effects) > 0
 	repl := map[string]any{"kind": e.kind.Name, "hops": e.hops, "class": class, "what": what, "ownersign_hex": hex.EncodeToString(o.received), "issued_nonce": hex.EncodeToString(o.nonce)}
+	if accepted && strings.HasSuffix(class, "replay") {
+		r.Violation("accepted-replay:"+class, fmt.Sprintf("%s hops=%d %s (%s): an OwnerSign recorded in an earlier session was accepted under a new session (answer %d, %d blob(s) stored)", e.kind.Name, e.hops, class, what, o.respType, len(o.effects)), repl)
+	}
 	if accepted && !ok {
 		r.Violation("accepted-without-proof:"+class, fmt.Sprintf("%s hops=%d %s (%s): server answered %d and stored %d blob(s) although the reference predicate fails: %s", e.kind.Name, e.hops, class, what, o.respType, len(o.effects), why), repl)
 	}
